@@ -2,7 +2,7 @@
    bool, option, unit, list, prod, sumbool map to OCaml's; N/Z/positive/nat/byte stay Coq
    datatypes).  Not part of _CoqProject: compiled by ./check in _build/extract. *)
 From Coq Require Import extraction.Extraction ExtrOcamlBasic.
-From RS Require Import Base.Bytes Base.Dec Base.Endian Spec.Crc16 Spec.Slot Spec.Crc64 Model.Slot Model.Digest Model.RespCodec Model.Filter Model.CmdFilter Gen.CmdTable Model.Backlog Model.Pipe Model.Supervisor.
+From RS Require Import Base.Bytes Base.Dec Base.Endian Spec.Crc16 Spec.Slot Spec.Crc64 Model.Slot Model.Digest Model.RespCodec Model.Filter Model.CmdFilter Gen.CmdTable Model.Backlog Model.Pipe Model.Supervisor Model.Checkpoint.
 Extraction Language OCaml.
 Set Extraction KeepSingleton.
 Extraction "model.ml"
@@ -15,4 +15,5 @@ Extraction "model.ml"
   filter_key filter_db filter_slot filter_command handle_filter_key get_match_keys get_match_keys_pinned cmd_table lookup_cmd
   new_ring read_at write close data_range reader_valid mem_align file_align
   pinit pstep pb_buffered pb_available
-  get_slot_state node_state.
+  get_slot_state node_state
+  load sender_write hset fetch.
